@@ -377,19 +377,24 @@ def run(ctx):
         for _j in range(rng.randint(1, 3)):
             ds.append([(rng.choice([100.0, 101.0, 101.00335, 102.5, 103.0]) if rng.random() < 0.7
                         else round(rng.uniform(99, 105), 4), round(rng.uniform(0, 1), 3)) for _q in range(rng.randint(0, 5))])
-        ctx.begin({'merge': ds})
-        got = call(st, pt.merge_isotopic_distributions, *[list(d) for d in ds]).get('result')
+        prec = rng.choice([None, None, 0, 1, 3])     # with a precision, masses that round to the same value merge
+        ctx.begin({'merge': ds, 'precision': prec})
+        if prec is None:
+            got = call(st, pt.merge_isotopic_distributions, *[list(d) for d in ds]).get('result')
+        else:
+            got = call(st, pt.merge_isotopic_distributions, *[list(d) for d in ds], precision=prec).get('result')
         count(st, 'merge')
         ctx.decided()
         exp = {}
         for d in ds:
             for m, a in d:
+                m = m if prec is None else round(m, prec)
                 exp[m] = exp.get(m, 0.0) + a
         ok = got is not None and [m for m, _a in got] == sorted(exp) and \
             all(abs(a - exp[m]) <= 1e-12 for m, a in got)
         if not ok:
-            ctx.violation('merge-does-not-add-abundances', {'inputs': ds, 'observed': got})
-        ctx.sig(('merge', len(ds), len(exp)), len(ds) >= 2)
+            ctx.violation('merge-does-not-add-abundances', {'inputs': ds, 'precision': prec, 'observed': got})
+        ctx.sig(('merge', len(ds), len(exp), prec), len(ds) >= 2)
     for k2, v in st.clauses.items():
         ctx.extra['clause_' + k2] = v
 
